@@ -132,3 +132,78 @@ Definition check_sched (c : sched_case) : N :=
   let '(cfg, ops, os) := c in
   let s0 := init_sys cfg in
   walk cfg s0 (Gh (map obs_of (nodes s0)) [] []) [] ops os false.
+
+(* ---------------- index-aware oracles: log images that start after a compaction point ----------------
+   A compacted node shows only the suffix of its log; entries carry their own index, so every clause is
+   evaluated by index.  Used for schedules with finalize / compact steps, which the executable model does not
+   contain (oracle only, no correspondence). *)
+Fixpoint consecutive (l : list entry) : bool :=
+  match l with
+  | a :: ((b :: _) as r) => N.eqb (eidx b) (eidx a + 1) && consecutive r
+  | _ => true
+  end.
+Definition first_idx (l : list entry) : N := match l with e :: _ => eidx e | [] => 0 end.
+Definition entry_at (l : list entry) (k : N) : option entry := find (fun e => N.eqb (eidx e) k) l.
+
+Definition log_match_ix (a b : list entry) : bool :=
+  forallb (fun x =>
+    match entry_at b (eidx x) with
+    | Some y =>
+        if N.eqb (eterm x) (eterm y)
+        then forallb (fun x' => if N.leb (eidx x') (eidx x)
+                                then match entry_at b (eidx x') with Some y' => entry_eqb x' y' | None => true end
+                                else true) a
+        else true
+    | None => true
+    end) a.
+
+Record ghost_ix := GhI {
+  seen_ix : list nobs;
+  leaders_ix : list (N * N);
+  cmap : list (N * (entry * N))      (* index -> entry first reported committed there, term of the reporter *)
+}.
+
+Fixpoint commit_merge_ix (mine : list entry) (c t : N) (m : list (N * (entry * N))) : option (list (N * (entry * N))) :=
+  match mine with
+  | [] => Some m
+  | x :: r =>
+      if N.leb (eidx x) c then
+        match aget m (eidx x) with
+        | Some (y, _) => if entry_eqb x y then commit_merge_ix r c t m else None
+        | None => commit_merge_ix r c t (m ++ [(eidx x, (x, t))])
+        end
+      else commit_merge_ix r c t m
+  end.
+
+Definition leader_complete_ix (lg : list entry) (m : list (N * (entry * N))) (t : N) : bool :=
+  forallb (fun kv => let '(k, (y, ty)) := kv in
+                     if N.ltb ty t && N.leb (first_idx lg) k
+                     then match entry_at lg k with Some x => entry_eqb x y | None => false end
+                     else true) m.
+
+Definition oracle_step_ix (g : ghost_ix) (i : N) (o : nobs) : option ghost_ix :=
+  let '(t, v, r, c, l) := o in
+  let seen' := set_nth_obs (seen_ix g) (N.to_nat i) o in
+  let ls' := if N.eqb r 2 then (t, i) :: leaders_ix g else leaders_ix g in
+  if negb (if N.eqb r 2 then election_ok (leaders_ix g) t i else true) then None
+  else if negb (consecutive l) then None                                   (* position k+1 follows position k *)
+  else if negb (match l with [] => N.eqb c 0 | _ => N.leb (first_idx l - 1) c && N.leb c (fst (last_info l)) end) then None
+       (* only committed entries are ever compacted away; nothing beyond the log is reported committed *)
+  else if negb (forallb (fun o' => let '(_, _, _, _, l') := o' in log_match_ix l l' && log_match_ix l' l) seen') then None
+  else match commit_merge_ix l c t (cmap g) with
+       | None => None
+       | Some m =>
+           if negb (if N.eqb r 2 then leader_complete_ix l m t else true) then None
+           else Some (GhI seen' ls' m)
+       end.
+
+(* a schedule with compaction steps: per step the touched node and its observation *)
+Definition compact_case := (N * list (N * nobs))%type.
+Fixpoint cwalk (g : ghost_ix) (os : list (N * nobs)) : N :=
+  match os with
+  | [] => V_OK
+  | (i, ob) :: r => match oracle_step_ix g i ob with None => V_VIOLATION | Some g' => cwalk g' r end
+  end.
+Definition check_compact (c : compact_case) : N :=
+  let '(n, os) := c in
+  cwalk (GhI (map (fun _ => (0, None, 0, 0, [])) (N_seq n)) [] []) os.
